@@ -23,7 +23,10 @@ type propInfo struct {
 	EnumWhat     string   `json:"EnumWhat"`
 
 	Instrumented bool `json:"-"`
-	NoMinimise   bool `json:"-"`
+	// DetRuns is the number of runs the determinism self-test executes in two
+	// processes (default 24).
+	DetRuns    int  `json:"-"`
+	NoMinimise bool `json:"-"`
 	// Extra runs property-specific additional phases after the main batch
 	// and may return notes for the evidence file and a violation.
 	Extra func(dir, id, tier string, seed uint64, knownPath string, agg *aggregate) (map[string]any, *replayFile) `json:"-"`
@@ -50,6 +53,7 @@ var props = map[string]*propInfo{
 	"C16": {},
 	"C19": {},
 	"C20": {},
+	"C08": {Instrumented: true, DetRuns: 400},
 	"C18": {Instrumented: true, Extra: c18RacePhase, Replay: c18Replay},
 }
 
@@ -58,11 +62,11 @@ func loadInfo(bin, id string, p *propInfo) error {
 	if err != nil {
 		return fmt.Errorf("cosesim info: %v", err)
 	}
-	keepI, keepN, keepE, keepR := p.Instrumented, p.NoMinimise, p.Extra, p.Replay
+	keepI, keepN, keepE, keepR, keepD := p.Instrumented, p.NoMinimise, p.Extra, p.Replay, p.DetRuns
 	if err := json.Unmarshal(out, p); err != nil {
 		return err
 	}
-	p.Instrumented, p.NoMinimise, p.Extra, p.Replay = keepI, keepN, keepE, keepR
+	p.Instrumented, p.NoMinimise, p.Extra, p.Replay, p.DetRuns = keepI, keepN, keepE, keepR, keepD
 	return nil
 }
 
